@@ -71,7 +71,7 @@ def freqs(rep, prog):
     def entries(t_):
         # the listed frequencies, unwrapped from sorted(list(set(...)))
         while isinstance(t_, Opq) and t_.k and t_.k[0] in ('sorted', 'list', 'set') and len(t_.k) == 2 and isinstance(t_.k[1], (Opq, list, tuple)): t_ = t_.k[1]
-        if isinstance(t_, Opq) and t_.k and t_.k[0] == 'set': return list(t_.k[1:])
+        if isinstance(t_, Opq) and t_.k and t_.k[0] == 'set' and not any(isinstance(x_, (Opq, Comp, Cond)) for x_ in t_.k[1:]): return list(t_.k[1:])
         return list(t_) if isinstance(t_, (list, tuple)) else None
     e0, e1 = entries(one({'R': A('R')})), entries(one({'w': A('w0'), 'V': A('V')}))
     okh = None
